@@ -1534,6 +1534,7 @@ def arm_prog(a, N, pattern):
     if a["sel"] == "mode" and a["form"] != "try-except":
         setup.append(f"mode = {a['taken']}")
     setup += arm_lines(a)
+    setup += [ln for s_ in a.get("post", []) for ln in stmt_lines(s_)]
     body = ['mon.write("-")', "c = p.read()"] + [ln for s_ in a["body"] for ln in stmt_lines(s_)]
     return {"lines": {"head": head, "setup": setup, "body": body}, "setup": [], "body": [], "N": N, "gates": [],
             "gvals": [0] + list(pattern), "arm": a, "kind": "arm-" + a["form"]}
@@ -1541,7 +1542,7 @@ def arm_prog(a, N, pattern):
 
 def arm_wire(prog):
     a = prog["arm"]
-    return [3, a["pre"], a["arms"], a["taken"], a["body"], list(prog["gvals"][1:])]
+    return [3, a["pre"], a["arms"], a["taken"], a.get("post", []), a["body"], list(prog["gvals"][1:])]
 
 
 def gen_arm_part(rng, N, pattern, form=None, focus=True):
@@ -1665,6 +1666,21 @@ def gen_arm_part(rng, N, pattern, form=None, focus=True):
         if form == "if-elif" and rng.random() < 0.15 and not focus:
             taken = n_arms           # no arm taken
         cur = finals[taken] if taken < n_arms else {x: list(v) for x, v in base.items()}
+        # top-level reads AFTER the statement (the names some arm writes are forgotten there: run-time len)
+        post = []
+        if rng.random() < 0.6:
+            for _ in range(rng.choice([1, 1, 2])):
+                x = rng.choice(names)
+                y = x if rng.random() < 0.75 else rng.choice(names)
+                nx, ny = len(cur[x]), len(cur[y])
+                if nx == 0:
+                    continue
+                sg = rng.random() < 0.75
+                target = rng.choice([nx - 1, nx - 1, 0, -1, -nx])
+                k = target - ny if sg else target + ny
+                if not sg and k < 0:
+                    continue
+                post.append([14, x, y, 1 if sg else 0, k])
         # a balanced main loop over the lists as the taken arm left them
         body = []
         r = rng.random()
@@ -1690,7 +1706,7 @@ def gen_arm_part(rng, N, pattern, form=None, focus=True):
             continue
         target = rng.choice([nx - 1, 0, -1, -nx])
         body.insert(pos, [14, x, y, 1, target - ny])
-        a = {"pre": pre, "arms": arms, "taken": taken, "form": form, "sel": rng.choice(["mode", "mode", "c0"]), "body": body,
+        a = {"pre": pre, "arms": arms, "taken": taken, "form": form, "sel": rng.choice(["mode", "mode", "c0"]), "body": body, "post": post,
              "focus": bool(pairs) and taken < n_arms and any(j == taken for _, j in pairs)}
         if form == "if-elif" and taken >= n_arms:
             a["sel"] = "mode"
@@ -1700,7 +1716,8 @@ def gen_arm_part(rng, N, pattern, form=None, focus=True):
 
 def emitted_arm_lens(cpp, prog):
     """the lengths the real parser folded in the arms, read off the emitted setup(): one entry per [14] statement of every arm in
-    source order (-1: emitted as the run-time __redu_len) -> list per arm | None when the text has another shape"""
+    source order (-1: emitted as the run-time __redu_len) -> list per arm, then one list for the statements after the if / try statement
+    | None when the text has another shape"""
     try:
         body = cpp[cpp.index("void setup()"):cpp.index("void loop()")]
     except ValueError:
@@ -1713,7 +1730,7 @@ def emitted_arm_lens(cpp, prog):
             inner = inner[inner.index(",") + 1:]
             gets.append(inner)
     out, it = [], iter(gets)
-    for arm in prog["arm"]["arms"]:
+    for arm in list(prog["arm"]["arms"]) + [prog["arm"].get("post", [])]:
         row = []
         for s_ in arm:
             if s_[0] not in (14, 5):
@@ -1744,6 +1761,8 @@ def model_arm_lens(m, prog, which=4):
     out = []
     for arm, row in zip(prog["arm"]["arms"], m[which]):
         out.append([v for s_, v in zip(arm, row) if s_[0] == 14])
+    if len(m) > 6:
+        out.append([v for s_, v in zip(prog["arm"].get("post", []), m[6][0]) if s_[0] == 14])
     return out
 
 
@@ -2204,7 +2223,8 @@ def run(ctx: C.Ctx):
         em = emitted_arm_lens(res["tr"]["cpp"], prog)
         if mv is not None:
             ml = model_arm_lens(m, prog, 4)
-            arm_st["arms_compared"] += len(ml)
+            arm_st["arms_compared"] += len(ml) - 1
+            arm_st["post_reads"] = arm_st.get("post_reads", 0) + len(ml[-1])
             arm_st["folded_reads"] += sum(1 for row in ml for v in row if v >= 0)
             arm_st["runtime_reads"] += sum(1 for row in ml for v in row if v < 0)
             if em is None:
